@@ -2,7 +2,7 @@
    Only the property theorems; the proofs are in Regex.v (language, derivative matcher), Routes.v (route family),
    Dispatch.v (dispatcher, mount points, pool scan), Sites.v (dispatcher of a site), Mapper.v (mapper of a site,
    map_dispatch, mapper_total), Examples.v (a concrete instance satisfying every hypothesis of map_dispatch). *)
-From CppcmsV Require Import Base.Tac C20.Defs C20.Regex C20.Routes C20.Dispatch C20.Sites C20.Mapper C20.MapAbs C20.Examples.
+From CppcmsV Require Import Base.Tac C20.Defs C20.Regex C20.Routes C20.Dispatch C20.Routed C20.Sites C20.Mapper C20.MapAbs C20.MapRel C20.MapAt C20.Examples.
 Local Open Scope N_scope.
 
 (* 1. the matcher that models booster::regex::match accepts exactly the whole strings of the language *)
@@ -104,6 +104,13 @@ Theorem whole_string : forall a url c hid args,
   dispatch a url c = Fired hid args -> fires a url c hid args.
 Proof. exact dispatch_whole_string. Qed.
 Print Assumptions whole_string.
+(* complete characterisation over trees of any depth: a handler fires with these arguments IFF, at every level from the
+   root, it is reached through the option of least index that takes the request (all earlier ones decline), whose pattern
+   matches the whole string, each mounted child receiving exactly the selected group *)
+Theorem routing_is_first_whole_match : forall a url c hid args,
+  dispatch a url c = Fired hid args <-> routed a url c hid args.
+Proof. intros. split; [apply dispatch_routed | apply routed_dispatch]. Qed.
+Print Assumptions routing_is_first_whole_match.
 Example whole_string_nonvacuous :
   let kid := App [DH KAssign (PRoute [RLit [47; 112]; RPar cs_digits true]) MAny 7 [1%nat]] [] [] [] in
   let root := App [DM (PRoute [RLit [47; 97]; RPar cs_dot false]) 1 0] [] [kid] [] in
@@ -134,6 +141,15 @@ Theorem pool_first_mount_point : forall mps h s p,
   end.
 Proof. exact pool_first_match. Qed.
 Print Assumptions pool_first_mount_point.
+(* end to end: a request is routed to the first mount point and then, inside its application, as above *)
+Theorem request_routing_end_to_end : forall pools h s p m i sub hid args,
+  route_request pools h s p m = RApp i sub (Fired hid args) ->
+  exists mp a, nth_error pools i = Some (mp, a) /\
+               mp_match mp h s p = Some sub /\
+               (forall j mp', (j < i)%nat -> nth_error (map fst pools) j = Some mp' -> mp_match mp' h s p = None) /\
+               routed a sub (Some m) hid args.
+Proof. exact request_routed. Qed.
+Print Assumptions request_routing_end_to_end.
 Example pool_nonvacuous :
   let m1 := MP None None (Some (PRoute [RLit [47; 97]; RPar cs_dot false])) 1 true in
   let m2 := MP None None (Some (PRoute [RLit [47]; RPar cs_dot false])) 0 true in
@@ -194,9 +210,40 @@ Theorem map_dispatch_absolute_key : forall root from upf pref node up pre pg ps 
               dispatch (build root) url c = Fired (snd pg) ps.
 Proof. exact map_dispatch_abs. Qed.
 Print Assumptions map_dispatch_absolute_key.
-(* full statement (not proved): the same for relative keys with dot / dot-dot components, keyword parameters and the
-   bare path of a mounted child (empty key), and for the tree-position form map_at (loc_of); those forms are modelled,
-   run against the implementation by the correspondence harness and checked by the oracle. *)
+(* relative keys: from a node F below a common ancestor A (rchain A F namesF), the key made of one dot-dot per level
+   between F and A, the mount names from A down to N and the page key is resolved to the mapper of N ... *)
+Theorem mapper_resolves_relative_key : forall root a0 up0 pre0 from upf namesF node up names pg,
+  site_wf root -> chain root a0 up0 pre0 ->
+  rchain a0 up0 from upf namesF -> rchain a0 up0 node up names -> Forall rname_ok names ->
+  In pg (site_pages node) -> (length namesF + length names > 0)%nat ->
+  mapper_for_key (build from, upf) (rel_key (length namesF) names (page_key pg)) = Ok ((build node, up), page_key pg, []).
+Proof. exact mapper_for_rel_key. Qed.
+Print Assumptions mapper_resolves_relative_key.
+(* ... and the url routes back to the page *)
+Theorem map_dispatch_relative_key : forall root a0 up0 pre0 from upf namesF node up names pg ps vals c pre,
+  site_wf root -> chain root a0 up0 pre0 ->
+  rchain a0 up0 from upf namesF -> rchain a0 up0 node up names -> Forall rname_ok names ->
+  chain root node up pre ->
+  In pg (site_pages node) -> (length namesF + length names > 0)%nat ->
+  params_okb (page_route pg) ps = true ->
+  reach root (pre ++ route_fill (page_route pg) ps) (snd pg) ps ->
+  exists url, real_map (build from, upf) vals (rel_key (length namesF) names (page_key pg)) ps = Ok url /\
+              dispatch (build root) url c = Fired (snd pg) ps.
+Proof. exact map_dispatch_rel. Qed.
+Print Assumptions map_dispatch_relative_key.
+(* the tree-position form used by the correspondence harness: registering a well-formed site never throws, every node
+   of the site sits at a tree position, and map_at at that position is real_map at the location used above *)
+Theorem site_registration_never_throws : forall s, site_wf s -> build_ok (build s) = true.
+Proof. exact build_ok_site. Qed.
+Print Assumptions site_registration_never_throws.
+Theorem map_at_agrees_with_real_map : forall root node up pre, site_wf root -> chain root node up pre ->
+  exists pos, forall vals key ps, nul_free key = true ->
+    map_at (build root) vals pos key ps = real_map (build node, up) vals key ps.
+Proof. exact map_at_is_real_map. Qed.
+Print Assumptions map_at_agrees_with_real_map.
+(* not proved (modelled, run against the implementation by the correspondence harness, checked by the oracle): single-dot
+   components, keyword parameters, the bare path of a mounted child (empty key via is_app), helper values in
+   templates, keys with an embedded NUL (c_str truncation). *)
 Example map_dispatch_nonvacuous :
   site_wf ex_root /\ chain ex_root ex_leaf ex_up ([47; 99] ++ [47; 100]) /\ In ex_page (site_pages ex_leaf) /\
   page_key ex_page <> [] /\ params_okb (page_route ex_page) ex_ps = true /\
@@ -211,6 +258,17 @@ Example map_dispatch_absolute_nonvacuous :
   real_map (build ex_mid, [(build ex_root, [99])]) [] (abs_key ex_up (page_key ex_page)) ex_ps = Ok ex_url /\
   map_at (build ex_root) [] [0%nat] [47; 99; 47; 100; 47; 113] ex_ps = Ok ex_url.
 Proof. split; [exact ex_names_ok|]. split; [exact ex_chain_mid|]. exact map_dispatch_abs_instance. Qed.
+Example map_dispatch_relative_nonvacuous :
+  rchain ex_root [] ex_leaf ex_up [[99]; [100]] /\ rchain ex_root [] ex_mid [(build ex_root, [99])] [[99]] /\
+  Forall rname_ok [[99]] /\ In ex_page_mid (site_pages ex_mid) /\
+  reach ex_root ([47; 99] ++ route_fill (page_route ex_page_mid) [[55]]) 2 [[55]] /\
+  rel_key 2 [[99]] (page_key ex_page_mid) = [46; 46; 47; 46; 46; 47; 99; 47; 112] /\
+  real_map (build ex_leaf, ex_up) [] (rel_key 2 [[99]] (page_key ex_page_mid)) [[55]] = Ok [47; 99; 47; 112; 47; 55] /\
+  dispatch (build ex_root) [47; 99; 47; 112; 47; 55] None = Fired 2 [[55]].
+Proof.
+  split; [exact ex_rchain_leaf|]. split; [exact ex_rchain_mid|]. split; [exact ex_rnames_ok|].
+  split; [left; reflexivity|]. split; [exact ex_reach_mid|]. exact map_dispatch_rel_instance.
+Qed.
 
 (* 8. mapper_total: an unknown key or a wrong number of parameters is an error, and an error is an exception or the
       fixed marker url, never a partial url *)
